@@ -365,7 +365,7 @@ func lgamma_small_imp(z, zm1, zm2 float64) float64 {
 
 func igamma_temme_large(a, x float64) float64 {
   sigma := (x - a)/a
-  phi   := -math.Log1p(sigma) - sigma
+  phi   := -(math.Log1p(sigma) - sigma)
   y     := a*phi
   z     := math.Sqrt(2.0*phi)
   if x < a {
